@@ -1576,7 +1576,7 @@ fn gen_c01(args: &Args) -> Vec<Scenario> {
     let mut out = vec![];
     let mut singles = single_fault_plans();
     rng.shuffle(&mut singles);
-    let take = args.tier.pick(singles.len() / 2, singles.len());
+    let take = singles.len();
     for (plan, label) in singles.into_iter().take(take) {
         let mut s = default_scn("c01", &format!("single:{label}"));
         s.plan = plan;
@@ -1619,7 +1619,7 @@ fn gen_c01(args: &Args) -> Vec<Scenario> {
         }
     }
     // random multi-fault histories
-    let n_random = args.tier.pick(60, 1500);
+    let n_random = args.tier.pick(240, 3000);
     for i in 0..n_random {
         let mut s = default_scn("c01", &format!("random#{i}"));
         s.plan = random_plan(&mut rng, i % 3 == 0);
@@ -1634,7 +1634,7 @@ fn gen_c01(args: &Args) -> Vec<Scenario> {
     }
     // a partially-reliable sibling channel shares the association (abandonment / FORWARD-TSN must
     // not stall the reliable channel), and in-band channels are opened while the send buffer is full
-    let n_sib = args.tier.pick(16, 200);
+    let n_sib = args.tier.pick(32, 300);
     for i in 0..n_sib {
         let mut s = default_scn("c01", &format!("sibling#{i}"));
         let mut sib = reliable_chan(3);
@@ -1731,7 +1731,7 @@ fn gen_c12(args: &Args) -> Vec<Scenario> {
     let mut rng = Rng::new(args.seed).fork(0xC12);
     let mut out = vec![];
     let types = all_chan_types();
-    let n = args.tier.pick(70, 900);
+    let n = args.tier.pick(160, 1200);
     let singles = single_fault_plans();
     for i in 0..n {
         let mut s = default_scn("c12", &format!("c12#{i}"));
@@ -1875,13 +1875,13 @@ fn gen_c13(args: &Args) -> Vec<Scenario> {
     // a sample of the C01 / C12 workloads and fault histories
     let mut c01 = gen_c01(args);
     rng.shuffle(&mut c01);
-    for mut s in c01.into_iter().take(args.tier.pick(40, 400)) {
+    for mut s in c01.into_iter().take(args.tier.pick(120, 800)) {
         s.kind = "c13".into();
         out.push(s);
     }
     let mut c12 = gen_c12(args);
     rng.shuffle(&mut c12);
-    for mut s in c12.into_iter().filter(|s| s.label != "ssnwrap" && s.label != "ssnwrap-lossy").take(args.tier.pick(25, 200)) {
+    for mut s in c12.into_iter().filter(|s| s.label != "ssnwrap" && s.label != "ssnwrap-lossy").take(args.tier.pick(60, 400)) {
         s.kind = "c13".into();
         out.push(s);
     }
